@@ -355,13 +355,28 @@ static __thread uint64_t t_rng;
  * (with some probability), so that the others run through the window between
  * this load and whatever the actor read just before */
 static const void *volatile g_watch_addr;
-static int g_watch_steps, g_watch_permille, g_watch_owner = -1;
+static int g_watch_steps, g_watch_permille, g_watch_owner = -1, g_watch_after;
+static volatile int g_watch_hits;
 void abtv_watch_load(const void *addr, int steps, int permille)
 {
     g_watch_addr = addr;
     g_watch_steps = steps;
     g_watch_permille = permille;
     g_watch_owner = me;
+    g_watch_after = 0;
+    g_watch_hits = 0;
+}
+/* how often the watch has held somebody back since it was set */
+int abtv_watch_hits(void)
+{
+    return g_watch_hits;
+}
+/* the same, but the loader is held back at one of the `within` hooked operations that follow
+ * the load (it has read the watched word and acts on the value while the others run) */
+void abtv_watch_load_after(const void *addr, int within, int steps, int permille)
+{
+    abtv_watch_load(addr, steps, permille);
+    g_watch_after = within > 0 ? within : 1;
 }
 static void hook(const void *addr, int op)
 {
@@ -370,8 +385,14 @@ static void hook(const void *addr, int op)
             return;
         LOCK();
         if (addr == g_watch_addr && addr && op == OP_LOAD && me != g_watch_owner && A[me].stalled_until <= g_steps &&
-            (int)(xs(&g_sched_rng) % 1000) < g_watch_permille)
-            A[me].stalled_until = g_steps + (uint64_t)g_watch_steps;
+            (int)(xs(&g_sched_rng) % 1000) < g_watch_permille) {
+            g_watch_hits++;
+            if (g_watch_after) {
+                A[me].stall_at = 2 + (int)(xs(&g_sched_rng) % (uint64_t)g_watch_after);
+                A[me].stall_steps = (uint64_t)g_watch_steps;
+            } else
+                A[me].stalled_until = g_steps + (uint64_t)g_watch_steps;
+        }
         /* 7 = after a store has been performed: a scheduling point that is neither progress nor polling */
         point_locked(op == 7 ? OP_POINT : op, 0);
         UNLOCK();
